@@ -89,8 +89,19 @@ func main() {
 				fmt.Fprintln(os.Stderr, err)
 				os.Exit(2)
 			}
+			if os.Getenv("ECHVERIF_LAYOUTS") != "" {
+				for _, l := range p.Layouts() {
+					fmt.Println(l)
+				}
+				continue
+			}
+			sigs := p.AnchorSigs()
 			for _, n := range p.AnchorNames() {
-				fmt.Println(n)
+				if s, ok := sigs[n]; ok {
+					fmt.Println(n + "\t" + s)
+				} else {
+					fmt.Println(n)
+				}
 			}
 		}
 	case "quick", "thorough":
